@@ -79,6 +79,7 @@ type bindings struct {
 	inputTime   time.Time
 	attachments []string
 	twins       int
+	twinVals    map[string]val // legacy reference of a neutrally named twin -> operand
 	dyn         []dynRef
 	dynIdx      map[string]int
 	dynByType   map[typ][]int
@@ -87,7 +88,7 @@ type bindings struct {
 func newBindings() *bindings {
 	return &bindings{nums: map[string]string{}, texts: map[string]string{}, dts: map[string]time.Time{},
 		results: map[string]map[string]*resEnt{}, fields: map[string]map[string]val{}, contacts: map[string]*contactEnt{},
-		extra: map[string]any{}, dynIdx: map[string]int{}, dynByType: map[typ][]int{}}
+		extra: map[string]any{}, dynIdx: map[string]int{}, dynByType: map[typ][]int{}, twinVals: map[string]val{}}
 }
 
 // genBindings draws the operands of the fixed catalogue and the per-case references.
@@ -130,6 +131,9 @@ func (b *bindings) refEnv() *refEnv {
 	}
 	for _, d := range b.dyn {
 		e.refs[d.legacy] = d.v
+	}
+	for k, v := range b.twinVals {
+		e.refs[k] = v
 	}
 	return e
 }
